@@ -19,10 +19,11 @@ B = 360000000000
 T_MAX = (1 << 63) - 1  # time_ns() up to year 2262
 
 
-class ProbeCache:
-    """stands in for KeyCache: records the position asked for"""
+class ProbeCache(_client.KeyCache):
+    """a real (empty) KeyCache that records the position asked for"""
 
     def __init__(self):
+        super().__init__()
         self.asked = None
 
     def _get_key(self, target_sd, root_key_id, l0, l1, l2):
@@ -103,4 +104,51 @@ def propagation(c, state, win):
     blob = c.call(dpapi_ng.ncrypt_protect_secret, c.bytes("pt", 3), sid, root_key_identifier=e2e.RK, cache=cache)
     k = c.call(_blob.DPAPINGBlob.unpack, blob).key_identifier
     c.check(all_of([k.l0 == l0, k.l1 == l1, k.l2 == l2]), "blob names the interval containing now")
+    return True
+
+
+@harness(P, per_job=True, params=lambda tier: [dict(win=w_, flavours=f) for w_ in ([(362, 0, 0, 2, 2), (361, 9, 4, 2, 2)] if tier == "quick" else
+                                                                               [(362, 0, 0, 2, 2), (361, 9, 4, 2, 2), (361, 10, 0, 2, 2), (270, 31, 31, 3, 3)])
+                                               for f in (("sync", "sync"), ("async", "sync"))], max_steps=3000000,
+         bounds="a history of two protect calls on one KeyCache holding the root key, with a clock that ADVANCES: every read of time.time_ns() returns the next of four solver-chosen "
+         "non-decreasing instants inside a window of +-2 ticks around an L0 / L2 (thorough: also L1) boundary. Each emitted blob must name the interval containing one of the "
+         "instants read during its own call (so neither a remembered earlier answer nor a mix of two reads may leak into the key identifier)",
+         outside="more than two calls; windows elsewhere (kernel_exact covers every single instant)", must_reach=("history: each blob names an interval containing an instant of its own call",))
+def propagation_history(c, win, flavours):
+    import dpapi_ng
+    from dpapi_ng import _blob
+
+    from . import e2e
+    from vlib.api import any_of
+
+    lo, hi = e2e.window(*win)
+    times = [c.int(f"t{i}", lo, hi) for i in range(4)]
+    c.assume(all_of([times[i] <= times[i + 1] for i in range(3)]))
+    state = {"i": 0, "reads": []}
+
+    def clock():
+        t = times[min(state["i"], 3)]
+        state["i"] += 1
+        state["reads"].append(t)
+        return t
+
+    w = e2e.new_world(c, extra=[(time.time_ns, clock)])
+    cache = dpapi_ng.KeyCache()
+    sid = e2e.SIDS[0]
+    c.call(cache.load_key, c.bytes("root", 64), e2e.RK)
+    oks = []
+    for n, fl in enumerate(flavours):
+        state["reads"] = []
+        if fl == "sync":
+            blob = c.call(dpapi_ng.ncrypt_protect_secret, c.bytes(f"pt{n}", 3), sid, root_key_identifier=e2e.RK, cache=cache)
+        else:
+            blob = c.call_async(dpapi_ng.async_ncrypt_protect_secret, c.bytes(f"pt{n}", 3), sid, root_key_identifier=e2e.RK, cache=cache)
+        k = c.call(_blob.DPAPINGBlob.unpack, blob).key_identifier
+        c.check(len(state["reads"]) >= 1, "history: the call read the clock")
+        alts = []
+        for t in state["reads"]:
+            ft = t // 100 + EPOCH
+            alts.append(all_of([k.l0 == ft // (1024 * B), k.l1 == (ft // (32 * B)) % 32, k.l2 == (ft // B) % 32]))
+        oks.append(any_of(alts))
+    c.check(all_of(oks), "history: each blob names an interval containing an instant of its own call")
     return True
